@@ -9,6 +9,7 @@ package main
 import (
 	"context"
 	"fmt"
+	"github.com/golang/protobuf/proto"
 	"os"
 	"strings"
 	"time"
@@ -38,6 +39,9 @@ type variant struct {
 	// trueHost: partition -> the node that really holds the partition's current contents
 	ownView  map[uint64][][]uint64
 	trueHost map[int]uint64
+	// grow: partition -> a node that already serves a replica of it (in its own view, same contents) and that the
+	// OTHER nodes learn about through the catalogue entry "add node X to partition p", applied before the question
+	grow map[int]uint64
 }
 
 var sizes = []int{1, 2, 4} // unique subset sums: any omission or double count changes the total
@@ -57,8 +61,9 @@ func build(v variant) *explore.Scenario {
 			if v.ownView != nil {
 				world.OwnView = func(node uint64) [][]uint64 { return v.ownView[node] }
 			}
+			world.WithTransport = v.grow != nil
 			c := world.NewDatasetCluster(v.nodes, 1, pb.Space_Euclidean, v.placement, 2, knows)
-			world.OwnView = nil
+			world.OwnView, world.WithTransport = nil, false
 			x.OnCleanup(c.Close)
 			P := len(v.placement)
 			for p := 0; p < P; p++ {
@@ -73,7 +78,7 @@ func build(v variant) *explore.Scenario {
 						if n.ID != th {
 							count = sizes[p] - 1
 						}
-					} else if !c.Hosts(n.ID, p) {
+					} else if !c.Hosts(n.ID, p) && !(v.grow != nil && v.grow[p] == n.ID) {
 						continue
 					}
 					for i := 0; i < count; i++ {
@@ -81,6 +86,20 @@ func build(v variant) *explore.Scenario {
 						if err := n.DS.VerifPartition(p).Index().Insert(id, []float32{float32(i)}, index.Metadata{"k": strings.Repeat("x", p+1)}, 0); err != nil {
 							panic(err)
 						}
+					}
+				}
+			}
+			for p, added := range v.grow {
+				ch := &pb.DatasetManagerChange{Type: pb.DatasetManagerChangeType_DatasetManagerUpdatePartitionNodes, NotificationId: world.ID(0xee, uint64(p)).Bytes()}
+				ch.Data, _ = proto.Marshal(&pb.DatasetPartitionNodesChange{Type: pb.DatasetPartitionNodesChangeType_DatasetPartitionNodesChangeAddNode,
+					DatasetId: c.DSID.Bytes(), PartitionId: c.Meta.Partitions[p].Id, NodeId: added})
+				data, _ := proto.Marshal(ch)
+				for _, n := range c.Nodes {
+					if n.ID == added {
+						continue // it has applied the entry already (its own view lists it)
+					}
+					if err := n.DM.VerifApply(data); err != nil {
+						panic(fmt.Sprintf("applying the catalogue entry on node %d: %v", n.ID, err))
 					}
 				}
 			}
@@ -99,6 +118,9 @@ func build(v variant) *explore.Scenario {
 							if world.Addr(id) == target {
 								hosted = true
 							}
+						}
+						if v.grow != nil && v.grow[p] != 0 && world.Addr(v.grow[p]) == target {
+							hosted = true
 						}
 						if !hosted && v.trueHost == nil {
 							wrongHost = fmt.Sprintf("partition %d asked on %s which does not host it", p, target)
@@ -381,6 +403,10 @@ func main() {
 		{name: "P3-remote-local-remote", nodes: 3, placement: [][]uint64{{2}, {1}, {3}}},
 		// the asker's catalogue lags: it still routes partition 1 to node 2, which has handed it over to node 3
 		{name: "P2-asker-has-stale-placement", nodes: 3, placement: [][]uint64{{1}, {2}}, ownView: map[uint64][][]uint64{2: {{1}, {3}}, 3: {{1}, {3}}}, trueHost: map[int]uint64{1: 3}},
+		// a replica is added by a catalogue entry: applying "add node 3 to partition 1" on nodes 1 and 2 must not make
+		// either of them count a partition it does not hold
+		{name: "P2-replica-added-by-catalogue-entry", nodes: 3, placement: [][]uint64{{1}, {2}}, ownView: map[uint64][][]uint64{3: {{1}, {2, 3}}}, grow: map[int]uint64{1: 3}},
+		{name: "P2-replica-added-to-remote-partitions", nodes: 3, placement: [][]uint64{{2}, {2}}, ownView: map[uint64][][]uint64{3: {{2, 3}, {2, 3}}}, grow: map[int]uint64{0: 3, 1: 3}},
 		{name: "P3-R2", nodes: 3, placement: [][]uint64{{1, 2}, {2, 3}, {3, 2}}, maxQuick: 1},
 		{name: "P2-fail-rpc", nodes: 3, placement: [][]uint64{{2}, {3}}, failNode: 3, failMode: "rpc"},
 		{name: "P2-fail-down", nodes: 2, placement: [][]uint64{{1}, {2}}, failNode: 2, failMode: "down"},
